@@ -126,3 +126,117 @@ pub fn normalize(o: &Orb) -> Orb {
     o.cones.sort();
     o
 }
+
+use crate::refmodel::dsym::{gcd, RS};
+use std::collections::BTreeMap;
+
+/// The orbifold of a connected 2-dimensional symbol straight from the definitions:
+/// cone points = branched 2-orbits without mirror; boundary components = cycles of mirror
+/// facets linked by the chain orbits between them, corners = branched chain orbits in
+/// cycle order; genus / cross-caps from the Euler characteristic of the underlying
+/// surface (K/2 plus the cone and corner defects) and orientability (bipartiteness).
+pub fn orbifold_of(s: &RS) -> Orb {
+    assert_eq!(s.dim(), 2);
+    let n = s.n;
+    let mut cones: Vec<i64> = vec![];
+    let mut corner_defects: Vec<i64> = vec![];
+    // mirror facets and the chains that link them
+    let mut chains: Vec<((usize, usize), (usize, usize), i64)> = vec![];
+    for (i, j) in [(0usize, 1usize), (1, 2), (0, 2)] {
+        let mut done = vec![false; n];
+        for d in 0..n {
+            if done[d] {
+                continue;
+            }
+            // members of the (i,j)-orbit and its mirror facets
+            let mut members = vec![];
+            let mut st = vec![d];
+            done[d] = true;
+            while let Some(x) = st.pop() {
+                members.push(x);
+                for k in [i, j] {
+                    let y = s.ops[k][x];
+                    if !done[y] {
+                        done[y] = true;
+                        st.push(y);
+                    }
+                }
+            }
+            let mut ends: Vec<(usize, usize)> = vec![];
+            for &x in &members {
+                for k in [i, j] {
+                    if s.ops[k][x] == x {
+                        ends.push((x, k));
+                    }
+                }
+            }
+            let v = s.v_any(i, j, d) as i64;
+            if ends.is_empty() {
+                if v > 1 {
+                    cones.push(v);
+                }
+            } else {
+                assert_eq!(ends.len(), 2, "a chain orbit has exactly two mirror ends");
+                chains.push((ends[0], ends[1], v));
+                if v > 1 {
+                    corner_defects.push(v);
+                }
+            }
+        }
+    }
+    // boundary cycles
+    let mut adj: BTreeMap<(usize, usize), Vec<((usize, usize), i64, usize)>> = BTreeMap::new();
+    for (k, &(a, b, v)) in chains.iter().enumerate() {
+        adj.entry(a).or_default().push((b, v, k));
+        adj.entry(b).or_default().push((a, v, k));
+    }
+    let mut used = vec![false; chains.len()];
+    let mut bnds: Vec<Vec<i64>> = vec![];
+    for (&start, _) in adj.iter() {
+        if adj[&start].iter().all(|&(_, _, k)| used[k]) {
+            continue;
+        }
+        let mut corners = vec![];
+        let mut cur = start;
+        loop {
+            let next = adj[&cur].iter().find(|&&(_, _, k)| !used[k]).cloned();
+            match next {
+                None => break,
+                Some((nb, v, k)) => {
+                    used[k] = true;
+                    if v > 1 {
+                        corners.push(v);
+                    }
+                    cur = nb;
+                }
+            }
+        }
+        bnds.push(corners);
+    }
+    // Euler characteristic of the underlying surface
+    let (kn, kd) = s.curvature2d();
+    let mut num = kn;
+    let mut den = 2 * kd;
+    let mut add = |a: i64, b: i64| {
+        num = num * b + a * den;
+        den *= b;
+        let g = gcd(num.abs(), den);
+        if g > 1 {
+            num /= g;
+            den /= g;
+        }
+    };
+    for &c in &cones {
+        add(c - 1, c);
+    }
+    for &c in &corner_defects {
+        add(c - 1, 2 * c);
+    }
+    let g = gcd(num.abs(), den).max(1);
+    let (num, den) = (num / g, den / g);
+    assert_eq!(den, 1, "Euler characteristic of the underlying surface is not an integer");
+    let chi_surf = num;
+    let x = 2 - chi_surf - bnds.len() as i64;
+    let (handles, caps) = if s.is_bipartite() { (x / 2, 0) } else { (0, x) };
+    Orb { cones, bnds, handles, caps }
+}
